@@ -1261,6 +1261,10 @@ def typearg_cases(jobs):
         for m in w["methods"]:
             params = []
             for i, t in enumerate(m["pos"]):
+                if t.get("k") == "union":
+                    # a union whose arms are type[...] annotations
+                    params.append(f"p{i + 1}: " + " | ".join(f"type[E{a['c']}]" for a in t["args"]))
+                    continue
                 n = t["c"]
                 if n == 1:
                     ann = "object"
